@@ -202,6 +202,11 @@ class Lexer:
                 if not bin_str:
                     raise JSSyntaxError("Invalid binary literal", line, col)
                 return self._integer_value(int(bin_str, 2))
+            elif next_ch and next_ch in "0123456789":
+                # 010 is 8 in old scripts and an error in strict code, never ten
+                raise JSSyntaxError(
+                    "Numbers with a leading zero are not allowed (octal: 0o10)", line, col
+                )
             # Could be 0, 0.xxx, or 0e... - fall through to decimal handling
 
         # Decimal number (integer part)
